@@ -126,9 +126,14 @@ package api
 //@   prop C03, C04
 //@   opaque addRoutes
 //@   requires s != nil && s.ng != nil
-//@   loop 1 invariant -1 <= rangeindex && rangeindex < len(opts) || len(opts) == 0
+//@   loop 1 invariant -1 <= rangeindex && (rangeindex < len(opts) || rangeindex == -1) && (rangeindex == -1 ==> len(r.routes) == len(rs) && (len(rs) == 0 || fresh(r.routes)))
 //@   loop 1 iteration-ensures [option-applied-to-this-group] calls(opt) == 1 && opt == at_head(opts[rangeindex + 1])
 //@   ensures [queued-once] calls(s.ng.addRoutes) == 1
+// what is registered is what the caller passed AT THIS CALL: the group holds its own copy of the routes (they are
+// bound only at Start; a caller that reuses or edits its slice afterwards must not rewrite registered routes)
+//@   replay api_addroutes_copy
+//@   let group = arg(s.ng.addRoutes, 1)
+//@   ensures [group-holds-its-own-copy] len(opts) == 0 ==> len(group.routes) == len(rs) && (len(rs) == 0 || fresh(group.routes))
 
 // WithPrefix: every route of THIS group gets the prefix joined in front of its own path and keeps its method and
 // handler; the caller's route values are not written (the same routes may be registered again under another
